@@ -125,7 +125,7 @@ func c10ApplyModel(m *ListModel, g, i int, op C10Op) c10Result {
 		m.Reset()
 		return c10Result{void: true}
 	}
-	return c10Result{void: true}
+	return c10Result{void: true} // ("setmutex": enabling what is enabled already changes nothing)
 }
 
 func c10ApplyReal(s stackage.Stack, g, i int, op C10Op) c10Result {
@@ -155,6 +155,9 @@ func c10ApplyReal(s stackage.Stack, g, i int, op C10Op) c10Result {
 		return c10Result{void: true}
 	case "reset":
 		s.Reset()
+		return c10Result{void: true}
+	case "setmutex":
+		s.SetMutex()
 		return c10Result{void: true}
 	}
 	return c10Result{void: true}
@@ -284,6 +287,9 @@ func c10RunScheduled(c C10Case, sched []int) (out c10Outcome) {
 			events <- event{g: g, kind: "want"}
 			<-resume[g]
 		case "lock.held":
+			if owner >= 0 && owner != g && hookViol == nil {
+				hookViol = violf("mutual-exclusion-broken", "goroutine %d acquired the stack's lock while goroutine %d holds it", g, owner)
+			}
 			owner = g
 			if now := slotIDs(s); lastReleased != "" && now != lastReleased && hookViol == nil {
 				hookViol = violf("content-changed-outside-lock", "the slot vector changed while nobody held the lock: %s -> %s", lastReleased, now)
@@ -647,7 +653,7 @@ func runC10Free(c C10Case, interesting bool) (st Stats, err error) {
 // ---- generators ----------------------------------------------------------------------
 
 func genC10Op(t *rapid.T, init int) C10Op {
-	o := C10Op{Op: rapid.SampledFrom([]string{"push", "push", "pop", "pop", "insert", "remove", "remove", "replace", "swap", "reverse", "reset"}).Draw(t, "op")}
+	o := C10Op{Op: rapid.SampledFrom([]string{"push", "push", "pop", "pop", "insert", "remove", "remove", "replace", "swap", "reverse", "reset", "setmutex"}).Draw(t, "op")}
 	switch o.Op {
 	case "push":
 		o.N = rapid.IntRange(1, 2).Draw(t, "n")
@@ -712,7 +718,7 @@ func enumC10(tier Tier, yield func(C10Case)) {
 	}
 	// all schedules of the small configurations: 2 goroutines x <=2 ops over a reduced alphabet, lengths 0..2
 	alphabet := func(init int) []C10Op {
-		a := []C10Op{{Op: "push", N: 1}, {Op: "pop"}, {Op: "insert", A: 0}, {Op: "remove", A: 0}, {Op: "replace", A: 0}, {Op: "reverse"}, {Op: "reset"}}
+		a := []C10Op{{Op: "push", N: 1}, {Op: "pop"}, {Op: "insert", A: 0}, {Op: "remove", A: 0}, {Op: "replace", A: 0}, {Op: "reverse"}, {Op: "reset"}, {Op: "setmutex"}}
 		if init >= 2 {
 			a = append(a, C10Op{Op: "remove", A: init - 1}, C10Op{Op: "swap", A: 0, B: init - 1}, C10Op{Op: "insert", A: init - 1})
 		}
